@@ -178,12 +178,14 @@ inductive DOp where
   | feed (bs : List UInt8) (cap' : Int)
   | read (bs : List UInt8)
   | decode (cap' : Int)
+  | commit (n : Int)        -- `src.Commit(n)` by the caller: received bytes move from the write area into the read area
   deriving Repr, DecidableEq
 
 def DOp.toSpec : DOp → Spec.WsFrame.Op
   | .feed bs _ => .feed bs
   | .read bs => .read bs
   | .decode _ => .decode
+  | .commit _ => .feed []     -- the monitor sees no new bytes; the buffer must still hold exactly the unconsumed ones
 
 structure DState where
   c : Codec
@@ -207,6 +209,9 @@ def DState.step (m : DState) : DOp → M (DState × Spec.WsFrame.Obs × Option I
       let bl := m.backlog ++ bs
       let r ← m.c.buf.ReadFrom bl
       pure ({ c := { m.c with buf := r.1 }, backlog := bl.drop r.2 }, ← observe r.1 (.took r.2), none)
+  | .commit n => do
+      let b := m.c.buf.Commit n
+      pure ({ m with c := { m.c with buf := b } }, ← observe b .ok, none)
   | .decode cap' => do
       let r ← m.c.Decode cap'
       match r.2.1 with
